@@ -12,7 +12,7 @@ CHECKS = {
               'classes emitted by the real Parser for MATCH/XMATCH/VLOOKUP/INDEX/ADDRESS/COLUMN formulas; key columns (len<=4/5), '
               'lookup values, indices and table cells symbolic; verdict per condition is "confirmed over all paths" or a '
               'replayed counterexample. A bounded verdict, not a proof.'),
-        design_ref='DESIGN.md section 6 / C14',
+        design_ref='DESIGN.md section 5 / C14',
         note=('Trusts CrossHair 0.0.110 models of int/str/list and z3; key columns longer than the bound, wildcard/binary-search '
               'XMATCH modes, mixed-type and horizontal key vectors are outside the claim; bare excepts of the loaded runtime copy are narrowed.'),
         technique='symbolic execution of the real Python code (CrossHair/z3), per-condition solver verdict',
@@ -24,7 +24,7 @@ CHECKS = {
               'regenerated runtime class and of classes emitted by the real Parser for the six comparison operators; operand '
               'pairs of one kind and (where cheap) the operator are symbolic. Exactness against Python comparison for numbers, '
               'order laws for texts, the blank clauses and date = date-time-at-midnight are separate solver-decided conditions.'),
-        design_ref='DESIGN.md section 6 / C10',
+        design_ref='DESIGN.md section 5 / C10',
         note=('floats are modelled as reals by CrossHair (order comparison involves no rounding); NaN/inf, non-ASCII text, cross-kind pairs '
               'other than with blank are outside the claim; dates: (year, month) concrete per condition, day symbolic, hour in {0,7,13}. '
               'One known finding (blank vs numeric-looking text) is partitioned out of the precondition.'),
@@ -38,7 +38,7 @@ CHECKS = {
               'CONCATENATE/SEARCH/VALUE; texts (ASCII, len<=4/5), counts/positions, the plain SEARCH needle and the searched text are '
               'symbolic; wildcard patterns are an enumerated concrete family (the runtime compiles them). Oracles: Python slices, '
               'casefolded find, an independent backtracking wildcard matcher.'),
-        design_ref='DESIGN.md section 6 / C17',
+        design_ref='DESIGN.md section 5 / C17',
         note=('ASCII texts only (str.lower/upper and re.findall run on validated models inside the engine); symbolic wildcard patterns, '
               "VALUE's date/time/percent ladder, text forms of floats/booleans/blank under & are outside the claim; two known findings "
               '(wildcard pattern literals inside SEARCH) are listed in known_findings.json.'),
@@ -51,7 +51,7 @@ CHECKS = {
               '_year/_month/_day) of the regenerated runtime class and of classes emitted by the real Parser; the year (pair) is concrete '
               'per condition, months/days/offsets/interval lengths/holiday offsets symbolic; oracle = independent proleptic-Gregorian '
               'ordinal arithmetic. TODAY is decided concretely with a stubbed clock (C-level datetime.combine cannot run inside the engine).'),
-        design_ref='DESIGN.md section 6 / C15',
+        design_ref='DESIGN.md section 5 / C15',
         note=('each verdict reads "for that concrete year, all months/days/offsets in the box"; years outside the listed set, DATEDIF MD/YD, '
               'time-of-day components are outside the claim; TODAY clause: concrete grid with a clock stub, not a solver verdict.'),
         technique='symbolic execution of the real Python code (CrossHair/z3), per-condition solver verdict',
@@ -63,7 +63,7 @@ CHECKS = {
               'cached text) constrained only by the cache invariant, one call of each facade method with a symbolic argument, postcondition = '
               'invariant preserved and get/write return/write exactly F(current settings) or raise exactly when F raises. Because Parser() '
               'satisfies the invariant this covers call histories of any length. The translation chain is replaced by the pure stub F.'),
-        design_ref='DESIGN.md section 6 / C09',
+        design_ref='DESIGN.md section 5 / C09',
         note=('Excel/Context/CellTranslator and open() are stubs (part of the claim). The second sentence of the property (byte-identical text across '
               'processes, hash seeds, earlier translations, threads) is NOT decided by this technique; only one concrete same-process history '
               'differential on the real chain is run and labelled concrete.'),
@@ -77,7 +77,7 @@ CHECKS = {
               'and one cell written three times), enumerated by z3 (DFS with blocking constraints) and executed natively on the real Executor '
               'over the class emitted by the real Parser for a three-sheet workbook; oracle = the workbook re-translated by the real Parser with '
               'constants at the overridden positions ("edit and recalculate"), evaluated with the last-write map. About 170 000 histories.'),
-        design_ref='DESIGN.md section 6 / C04',
+        design_ref='DESIGN.md section 5 / C04',
         note=('the code under test hashes every value, so the solver is the exhaustive enumerator of the stated finite space, not an abstraction; '
               "set-iteration orders other than the running process's are not explored; histories longer than 3 writes are outside the claim; one "
               'known finding (whole-column reference vs override below the used range) is partitioned out by region. E1 (CrossHair) was tried '
@@ -92,7 +92,7 @@ CHECKS = {
               'natively on the real Executor over the class emitted by the real Parser; each schedule is compared with a fresh Executor, and '
               'overrides/sizes/grid shape are checked. The code under test hashes every value, so the solver acts as the exhaustive enumerator '
               'of the stated finite space rather than abstracting values.'),
-        design_ref='DESIGN.md section 6 / C08',
+        design_ref='DESIGN.md section 5 / C08',
         note=('one workbook (the C04 one); at most two queries after one override; concurrency and longer schedules are outside the claim. '
               'E1 (CrossHair) was tried first and abandoned for this property: 1 s per path (measured), see DESIGN.md.'),
         technique='solver-enumerated bounded exploration (z3 DFS) with native execution of the real code',
@@ -105,7 +105,7 @@ CHECKS = {
               'argument, with no bound. Helpers whose ASTs differ are decided by CrossHair/z3 differential conditions on symbolic arguments; a '
               'stateful differential (set_arguments / exec_function_in histories) compares a generated class with a subclass of the base that '
               'carries the same cell methods. The thorough tier runs every differential condition regardless of AST equality.'),
-        design_ref='DESIGN.md section 6 / C20',
+        design_ref='DESIGN.md section 5 / C20',
         note=('AST identity trusts CPython determinism; differential conditions are bounded (short lists/texts, small integer boxes); members without '
               'a differential harness (_today, the exception class) are reported inconclusive if their ASTs ever differ.'),
         technique='AST equivalence of the two runtime copies + symbolic differential execution (CrossHair/z3) where they differ',
@@ -117,7 +117,7 @@ CHECKS = {
               'area shapes (row, column, rectangle, whole column, two areas, scalar+area in either order, other sheet, area reaching below the used '
               'range, the same reference text on two sheets, all formulas also in one workbook); the contents of the cells involved are symbolic '
               'Union[int, bool, str, None]; oracle = independent fold; SUM(X,Y)=SUM(X)+SUM(Y) as a metamorphic condition.'),
-        design_ref='DESIGN.md section 6 / C11',
+        design_ref='DESIGN.md section 5 / C11',
         note=('4 symbolic cells; texts of length <= 1; AVERAGE is decided in two steps (the emitted code hands exactly the numeric cells to _average - '
               'spied - and _average on small integer lists) because symbolic division makes the solver crawl; float arithmetic in SUM is not covered '
               '(comparisons only for MIN/MAX); dates and error-valued cells inside aggregates are outside the claim.'),
@@ -130,7 +130,7 @@ CHECKS = {
               'nested (depth <= 2) and in operand/argument positions (+ * & % SUM ROUND, inside IFERROR); condition cells symbolic '
               'Union[int, bool, None], value cells symbolic ints or one of the seven Excel error texts (symbolic index); branches that must not be '
               'evaluated contain an expression that raises when evaluated. Oracle: lazy reference evaluation per formula.'),
-        design_ref='DESIGN.md section 6 / C13',
+        design_ref='DESIGN.md section 5 / C13',
         note=('27 formula shapes; deeper nests, array-valued branches and text conditions are outside the claim; one known finding (IFS is eager and '
               'scans untaken pairs for errors) is listed in known_findings.json.'),
         technique='symbolic execution of the real Python code (CrossHair/z3), per-condition solver verdict',
@@ -143,7 +143,7 @@ CHECKS = {
               'functions and ten structural shapes (two pairs, SUMIF target derivation, misaligned ranges) are enumerated and pushed through the real '
               'lexer/parser/LambdaTokenTranslator; range contents and the referenced criterion cell are symbolic; oracle = independent '
               'select-then-fold with a three-valued accept predicate (nothing is demanded where the statement is silent).'),
-        design_ref='DESIGN.md section 6 / C12',
+        design_ref='DESIGN.md section 5 / C12',
         note=('3-row ranges; numeric forms: three symbolic Union[int,str] cells; text/wildcard forms: one symbolic text cell (len<=3, realised by the '
               'engine); AVERAGEIFS division spied; date criteria, floats, >2 pairs outside the claim; three known findings (text cell under a numeric '
               'comparison raises; operator+text criteria) are partitioned out.'),
@@ -159,7 +159,7 @@ CHECKS = {
               'interpretation of the operators. EUF-different shapes go to a value tier (z3 over reals; models replayed on the real generated '
               'class). Blank-as-zero and override-vs-constant clauses: CrossHair on emitted classes. Numeric literals: z3 Float64 through the '
               'real LiteralToken constructor with symbolic digit groups (builtins shimmed in its module globals).'),
-        design_ref='DESIGN.md section 6 / C01',
+        design_ref='DESIGN.md section 5 / C01',
         note=('operands are cell references (ints in the value tier, -9..9); _normalize_float_number = identity at term level; text concatenation '
               'associativity built into the normalisation; four grammar-level known findings (unary sign, lower-precedence operator after a higher one, '
               '% after brackets, % operand not last) cover 69% of the family on the pinned tree and are partitioned out by region - shapes outside '
@@ -174,7 +174,7 @@ CHECKS = {
               'M < 2000 (quick) / 10^5 that the result is the double nearest to the decimal-exact result, outside the recorded known-finding '
               'region (decimals already at precision but not exactly representable), where a weaker one-unit bound is decided instead (thorough). '
               '_round is decided structurally: its body must be exactly round(number, int(digits)).'),
-        design_ref='DESIGN.md section 6 / C16',
+        design_ref='DESIGN.md section 5 / C16',
         note=('NOT decided: the percent clause (x% to 15 significant digits: the .15g formatting is C code and cannot be encoded) and the semantics of '
               "Python's round() on ties (C, dtoa) - the latter is a recorded known finding. ceil/floor results are integral FP terms (exact below 2^53)."),
         technique='symbolic execution of the real Python code on IEEE-754 proxies, z3 floating-point theory (QF_FPBV) per path',
@@ -187,7 +187,7 @@ CHECKS = {
               'tables) with one symbolic token replaced / inserted / deleted at a symbolic position (two appended in thorough). On every path: the '
               "library's parser exception, or a tree holding every input token once and in order. Whitespace placement and ,/; choice: z3-enumerated "
               'variants of six concrete formulas through the real Lexer and translators must give the canonical emitted code.'),
-        design_ref='DESIGN.md section 6 / C05',
+        design_ref='DESIGN.md section 5 / C05',
         note=('token values are not symbolic (the parser core never reads them); the lexer is C regex code and is exercised on concrete texts only '
               '(group 3: the solver merely enumerates the variants, stated); sequences longer than the bound that are not one edit away from a '
               'function shape are outside the claim.'),
@@ -200,7 +200,7 @@ CHECKS = {
               'accepted path of the single-token-edit exploration of all function shapes gives (z3 model) a representative class sequence which is '
               'spelled canonically and pushed through the real Parser on a workbook: library exception, or text that compiles, defines ExcelInPython '
               'with the workbook titles/sizes and a member per cell, and loads the same from the written file and as a class object.'),
-        design_ref='DESIGN.md section 6 / C06',
+        design_ref='DESIGN.md section 5 / C06',
         note=('NOT decided by this technique: termination on arbitrary workbooks, every constant type openpyxl can deliver, arbitrary sheet titles - only '
               'listed concrete probes (with a time limit) run for these and are labelled concrete. Translators see one canonical spelling per accepted class '
               'sequence. Three shape-level known findings are matched by formula pattern.'),
@@ -214,7 +214,7 @@ CHECKS = {
               '(must list / must not list / unconstrained). (2) z3-enumerated placements: safety flag x sheet x column x row of a suspicious text and of '
               'a second suspicious or innocent text; each case is a real .xlsx written by openpyxl and translated by the real Parser: exception type, '
               'key = true title + true A1 address, fragments are parts of the text, nothing innocent listed, never raised with the check off.'),
-        design_ref='DESIGN.md section 6 / C19',
+        design_ref='DESIGN.md section 5 / C19',
         note=('the solver is the exhaustive enumerator of finite spaces here (E1 with a symbolic regex subject does not finish length 4 - measured); '
               'longer texts, non-ASCII identifiers, more than two planted cells are outside the claim.'),
         technique='solver-enumerated bounded exploration (z3 DFS) with native execution of the real code on real .xlsx files',
@@ -227,7 +227,7 @@ CHECKS = {
               'and executed natively: every layout is a real .xlsx written by openpyxl and translated by the real Parser; on the loaded class every '
               'coordinate of a 5x5 box on every sheet is compared (value and exact type, or blank) with what plain openpyxl reads back from the '
               'same file, together with the titles in workbook order and the sizes.'),
-        design_ref='DESIGN.md section 6 / C18',
+        design_ref='DESIGN.md section 5 / C18',
         note=('the solver is the exhaustive enumerator of the stated finite layout space (nothing stays symbolic through file I/O); real openpyxl is '
               'exercised, no stub; value kinds outside the family (date without time, time, timedelta, empty text), more sheets or larger blocks are '
               'outside the claim.'),
@@ -242,7 +242,7 @@ CHECKS = {
               'through the real Parser on real .xlsx files. Oracle: the generated module compiles and, with string constants blanked, has the same '
               'AST as the module for a benign twin (=> the payload reached string constants only); constant cells / plain literals evaluate to '
               'exactly the payload; a canary in builtins is never called.'),
-        design_ref='DESIGN.md section 6 / C07',
+        design_ref='DESIGN.md section 5 / C07',
         note=('the solver is the exhaustive enumerator of the stated finite space; payloads longer than the bound, bare double quotes inside formula '
               'literals (Excel doubles them) and illegal sheet titles are outside the claim; one known finding (wildcard characters in a plain '
               'literal are turned into their regex form) is matched by context + character.'),
@@ -257,7 +257,7 @@ CHECKS = {
               'powers of two, so SUM identifies the exact set of cells and INDEX their order; a missing sheet must be rejected. (b) reference text -> '
               'token -> handle_cell: z3-enumerated pieces (title spelling, $ flags, boundary columns A..ZZZ, boundary rows, trailing character) must '
               'come back as the intended indices; every one of the 18 278 column names is run concretely.'),
-        design_ref='DESIGN.md section 6 / C02',
+        design_ref='DESIGN.md section 5 / C02',
         note=('the solver enumerates finite case spaces here (E1 with symbolic reference text was measured: thousands of paths, one per character value, no '
               'verdict in 180 s); 4x4 blocks; titles containing quotes or exclamation marks, 3-D and lower-case references are outside the claim.'),
         technique='solver-enumerated bounded exploration (z3 DFS) with native execution of the real code on real .xlsx files',
@@ -271,7 +271,7 @@ CHECKS = {
               'workbook the whole translation and the entry-point translation from each formula cell are checked: cycle (anywhere / reachable from '
               "the entry) => the library's parser exception; else the slice is closed, contains everything the entry reaches and evaluates each of "
               'those cells to the value of an independent evaluator (= the whole-workbook value).'),
-        design_ref='DESIGN.md section 6 / C03',
+        design_ref='DESIGN.md section 5 / C03',
         note=('the solver enumerates the finite graph space (translation is concrete by nature); more than 3 formula cells, dependencies through criteria '
               'ranges / INDEX / COLUMN and deeper graphs are outside the claim.'),
         technique='solver-enumerated bounded exploration (z3 DFS) with native execution of the real code on real .xlsx files',
@@ -280,6 +280,18 @@ CHECKS = {
 }
 
 NOT_YET = {}   # filled below for every property without a check
+
+# parts of a check that are NOT solver verdicts (enumeration or concrete probes on the real code); appended to the level note
+LABELLED = {
+    'C03': 'Concrete probe (labelled): rings and chains of 2..150 cells.',
+    'C05': 'Groups 4 and 5 are concrete surveys through the real lexer/parser/translators (accepted arguments reach the emitted code; parser-level rejection = translation-level rejection), labelled as such in the evidence.',
+    'C09': 'Concrete probes (labelled): same-process history differential, PYTHONHASHSEED sweep, four-thread probe.',
+    'C14': 'Grid (labelled, enumeration): sorted key columns of 16-18 rows with duplicate runs.',
+    'C16': 'Formula level (labelled grid): delegation of ROUND/ROUNDUP/ROUNDDOWN to the decided helpers, witness values, and the x% clause on a native grid (C formatting is executed, not encoded).',
+    'C19': 'Concrete probe (labelled): workbooks with 1..130 suspicious cells.',
+    'C20': 'Native grids (labelled, enumeration) back the differential for members whose symbolic differential does not close; the set of differing members is closed under callers.',
+}
+
 
 def main():
     props = [json.loads(l) for l in open(os.path.join(V, 'properties.jsonl'))]
@@ -297,7 +309,7 @@ def main():
             replay_cmd_template=f'./vcheck {pid} --replay {{path}}',
             engine=c['engine'],
             level_claimed=dict(category=c['category'], text=c['text'], design_ref=c['design_ref']),
-            level_note=c['note'],
+            level_note=c['note'] + (' ' + LABELLED[pid] if pid in LABELLED else ''),
             technique=c['technique'],
         ))
     na = []
